@@ -168,4 +168,13 @@ def slicePositions (v : View) (f : Feat) : List Int × Bool :=
   let ps := (sliceIdx f).map (viewPos v)
   (if f.reversed then ps.reverse else ps, (decide (v.step < 0)) != f.reversed)
 
+/-- absolute plus-strand position shown at view index `i`, for ANY stride: `offset + elems[i]` -/
+def viewPosAny (v : View) (i : Int) : Int :=
+  v.offset + (if v.step > 0 then v.start else v.start + v.seqLen) + i * v.step
+
+/-- `slicePositions` for any stride -/
+def slicePositionsAny (v : View) (f : Feat) : List Int × Bool :=
+  let ps := (sliceIdx f).map (viewPosAny v)
+  (if f.reversed then ps.reverse else ps, (decide (v.step < 0)) != f.reversed)
+
 end CogentModel.FeatureView
